@@ -216,6 +216,10 @@ inductive SOp (V : Type) where
   | bind (uid : String)
   | id
   | push
+  /-- `PushSession(nil)`: the handler does not wait for the callback and goes on (typically: answers) in
+  the same turn.  The push message is sent at once, so on the back→front channel it precedes
+  whatever the handler sends afterwards (its response, a query): modelled as delivered at once. -/
+  | pushNW
   | query
   | json
   | keep (h : String)
@@ -268,7 +272,7 @@ def sstepFront (cfg : Cfg) (s : State V) (c : Conn) (kept : Option String) (op :
     | .set k v => setKV k v
     | .bind uid => setKV KeyUId (JVal.str uid)
     | .id => ⟨s, .front c, kept, (match frontGetID m with | some u => .id u | none => .panic), []⟩
-    | .push | .query => ⟨s, .front c, kept, (if cfg.isFront c.1 then .ok else .nons), []⟩
+    | .push | .pushNW | .query => ⟨s, .front c, kept, (if cfg.isFront c.1 then .ok else .nons), []⟩
     | .json => ⟨s, .front c, kept, .json (SData.toJson m), []⟩
     | .keep _ => ⟨s, .front c, kept, .nokeep, []⟩
     | .updRaw => ⟨s, .front c, kept, .ok, []⟩
@@ -306,6 +310,11 @@ def sstepBack (cfg : Cfg) (s : State V) (b : Back V) (kept : Option String) (op 
     else
       let (s', b', r, evs) := backPush cfg s b
       ⟨s', .back b', kept, r, evs⟩
+  | .pushNW =>
+    if b.ns = "" then ⟨s, .back b, kept, .nons, []⟩
+    else
+      let (s', b', _, evs) := backPush cfg s b
+      ⟨s', .back b', kept, .ok, evs⟩
   | .query =>
     if b.ns = "" then ⟨s, .back b, kept, .nons, []⟩
     else
